@@ -31,6 +31,7 @@ HARNESSES = {
     "token_buffer_v4": ("src/token.rs", "token(v4 ip, secret) = SHA1(4 address octets ++ big-endian secret)", True),
     "token_buffer_v6": ("src/token.rs", "token(v6 ip, secret) = SHA1(16 address octets ++ big-endian secret)", True),
     "token_new_len": ("src/token.rs", "Token::new accepts exactly 20 bytes and keeps them", True),
+    "bucket_add_newcomer": ("src/bucket.rs", "Bucket::add_node on all 3^8 status patterns of a bucket of 8 distinct nodes x a newcomer of any standing: at most one slot changes, the victim is strictly lower, no live node is displaced while a bad slot exists, a bucket without a lower slot rejects unchanged (clock stubbed; ~8-20 min)", True),
 }
 
 
